@@ -1227,6 +1227,8 @@ htp_status_t htp_tx_state_response_complete_ex(htp_tx_t *tx, int hybrid_mode) {
         if (rc != HTP_OK) return rc;
     }
 
+    int yield = 0;
+
     if (!hybrid_mode) {
         // Check if the inbound parser is waiting on us. If it is, that means that
         // there might be request data that the inbound parser hasn't consumed yet.
@@ -1245,15 +1247,15 @@ htp_status_t htp_tx_state_response_complete_ex(htp_tx_t *tx, int hybrid_mode) {
 #ifdef LIBHTP_VERIF
             htp_verif_site(HTP_VERIF_SITE_RES_COMPLETE_EARLY_DATA_OTHER, tx->connp, 0, 0);
 #endif
-            return HTP_DATA_OTHER;
+            yield = 1;
         }
 
         // Do we have a signal to yield to inbound processing at
         // the end of the next transaction?
-        if (tx->connp->out_data_other_at_tx_end) {
+        else if (tx->connp->out_data_other_at_tx_end) {
             // We do. Let's yield then.
             tx->connp->out_data_other_at_tx_end = 0;
-            return HTP_DATA_OTHER;
+            yield = 1;
         }
     }
 
@@ -1269,6 +1271,10 @@ htp_status_t htp_tx_state_response_complete_ex(htp_tx_t *tx, int hybrid_mode) {
     connp->out_tx = NULL;
 
     connp->out_state = htp_connp_RES_IDLE;
+
+    // Yield only now that the response side has let go of the transaction: the inbound
+    // parser may complete (and finalize, even destroy) it before we are called again.
+    if (yield) return HTP_DATA_OTHER;
 
     return HTP_OK;
 }
